@@ -613,6 +613,12 @@ def gen_op(ch: core.Chooser, filter_: Optional[Callable[[Op], bool]] = None, onl
 def build_args(desc: dict) -> tuple:
     args = [model.build_value(v) for v in desc["args"]]
     kwargs = {k: model.build_value(v) for k, v in desc.get("kwargs", {}).items()}
+    if desc.get("alias") and len(args) >= 2:
+        # the very same object in two argument positions (where the second is a polynomial of the same shape)
+        import numpoly
+
+        if isinstance(args[0], numpoly.ndpoly) and isinstance(args[1], numpoly.ndpoly) and args[0].shape == args[1].shape:
+            args[1] = args[0]
     return args, kwargs
 
 
